@@ -8,6 +8,11 @@ package disk
 // queries: a failing stat means "no such node", never a panic
 //@ func IsExist [C02]
 //@   modifies $none
+// a node exists iff stat succeeds: every failure (no such file, not a directory below a file,
+// name too long) means "not there", as in the in-memory filespace
+//@   trace os.Stat as STAT bind st
+//@   at_call os.Stat requires $0 == path
+//@   ensures result == (st.1 == nil)
 //@ func IsDir [C02]
 //@   modifies $none
 //@ func IsFile [C02]
